@@ -79,6 +79,17 @@ def ite(c, a, b):
 
 
 def same(a, b):
+    if a is b:
+        return True
+    ta = type(a)
+    if ta is type(b) and getattr(ta, "__eq__", None) is object.__eq__ and hasattr(a, "__dict__") \
+            and not isinstance(a, (type, BaseException)):
+        # plain objects (no __eq__ of their own): same means field-wise the same
+        da, db = vars(a), vars(b)
+        return da.keys() == db.keys() and all(same(da[k], db[k]) for k in da)
+    import collections
+    if isinstance(a, collections.deque) and isinstance(b, collections.deque):
+        return list(a) == list(b)
     return a == b
 
 
